@@ -20,7 +20,7 @@ from checks import C17 as sockchk
 MODULE = "Nice.Props.C16"
 THEOREMS = [f"Nice.Props.C16.{t}" for t in (
     "C16_wrap_decodes", "C16_channeldata_decodes", "C16_unwrap_inverse", "C16_unwrap_channeldata",
-    "C16_held_not_lost", "C16_timeout_flushes", "C16_queue_fifo", "C16_recv_no_fault")] + [
+    "C16_held_not_lost", "C16_timeout_flushes", "C16_stale_nonce_reauthenticates", "C16_queue_fifo", "C16_recv_no_fault")] + [
     "Nice.Props.C16Send.C16_no_send_without_permission", "Nice.Props.C16Send.analysis_ok"]
 TRUSTED = [
     "Lean 4 kernel; axioms propext, Classical.choice, Quot.sound only (audited every run)",
@@ -230,6 +230,7 @@ def oracle(L, out, known=None):
     expected = {p: [] for p in range(4)}     # per peer: payloads sent and not yet seen on the wire
     channels = {}                            # channel -> peer, as the RELAY would know them: learnt from CB requests answered ok
     cb_req = {}                              # seq -> (chan, peer)
+    cp_req = {}                              # seq -> peer
     held = {p: 0 for p in range(4)}
     for line, o in zip(L, out):
         m = LINE.match(o)
@@ -247,7 +248,10 @@ def oracle(L, out, known=None):
                 expected[peer].append(payload)
         # decode what went down as the relay would
         for d in re.findall(r"R?C[PB]\([^)]*\)|[0-9a-f|-]+", downs):
-            if d.startswith("CP(") or d.startswith("RCP(") or d.startswith("RCB("):
+            if d.startswith("CP("):
+                cp_req[int(d[3:-1].split(",")[0])] = int(d[3:-1].split(",")[1])
+                continue
+            if d.startswith("RCP(") or d.startswith("RCB("):
                 continue
             if d.startswith("CB("):
                 seq, ch, peer, auth = d[3:-1].split(",")
@@ -260,6 +264,11 @@ def oracle(L, out, known=None):
             if dec[0] == "req":
                 continue
             kind, peer, payload = dec
+            if op == "reply" and w[3] == "cp" and w[5] == "e438" and cp_req.get(int(w[4])) == peer:
+                # 438 Stale Nonce asks for the same request again under the new NONCE: the relay has installed nothing,
+                # so what is released now is dropped there ("held ... until the permission request is answered")
+                return (f"the relay answered CreatePermission #{w[4]} for peer {peer} with 438 Stale Nonce (a re-authentication round) and the "
+                        f"socket released the data it held for that peer ({len(payload)} bytes) instead of repeating the request")
             if peer is None or not expected[peer]:
                 return f"the socket wrote data for a peer nothing was sent to: {d[:80]}"
             want = expected[peer][0]
